@@ -1,7 +1,7 @@
 """C15 — callbacks and iterators deliver every item once, in order, until told to stop.
 Case format: '15 | row' with row either
  '0 sink stop method item..'  sink: 0 closure returning false on its stop-th call (0 = never), 1 &mut Vec, 2 VecDeque::from_extend();
-                              method: 0 iter.feed_into_mut(&mut cb), 1 cb.extend(iter), 2 iter.feed_into(cb)
+                              method: 0 iter.feed_into_mut(&mut cb), 1 cb.extend(iter), 2 iter.feed_into(cb), 3/4 a manual loop over Callbackable::call on the callback / on &mut callback
      output rows: [count (or -1 for extend)] ; items the sink holds afterwards ; items never offered (dropped by the source), in order
  '1 n op*n script..'          ops: 0 next() on a CIterator wrapped around the source, 1 next() on the source itself;
                               script: what the source's successive next() calls return (v>=0 Some(v), -1 None; non-fused sources allowed)
@@ -28,7 +28,7 @@ def gen_cases(rng, tier):
     v = 100
     for n in range(0, maxn + 1):
         items = list(range(v, v + n)); v += n
-        for method in (0, 1, 2):
+        for method in (0, 1, 2, 3, 4):
             for stop in range(0, n + 2):
                 cases.append("15 | 0 0 %d %d %s" % (stop, method, " ".join(map(str, items))))
             cases.append("15 | 0 1 0 %d %s" % (method, " ".join(map(str, items))))
@@ -48,7 +48,7 @@ def gen_cases(rng, tier):
             items = [rng.range(0, 10 ** 6) for _ in range(n)]
             sink = rng.below(3)
             stop = rng.range(0, n + 2) if sink == 0 else 0
-            cases.append("15 | 0 %d %d %d %s" % (sink, stop, rng.below(3), " ".join(map(str, items))))
+            cases.append("15 | 0 %d %d %d %s" % (sink, stop, rng.below(5), " ".join(map(str, items))))
         else:
             n = rng.range(1, 40)
             ops = [rng.below(2) for _ in range(n)]
